@@ -96,7 +96,7 @@ func scenariosFor(prop string) []scn {
 		both(flowParams{Sources: 1, Records: 1, Batch: 1, Dests: 1, AckMenu: okNack, GateDLQOpen: true, Stop: "force"}, 3, 4)
 		both(flowParams{Sources: 1, Records: 2, Batch: 1, Dests: 2, AckMenu: okNack, GateDLQOpen: true, Stop: "force"}, 2, 3)
 	case "C09":
-		shapes := []string{"ok", "wrongpos", "extra", "none", "reorder", "dup", "err", "nack"}
+		shapes := []string{"ok", "wrongpos", "extra", "none", "reorder", "dup", "err", "nack", "empty", "chunkextra"}
 		both(flowParams{Sources: 1, Records: 2, Batch: 2, Dests: 1, AckMenu: shapes, Stop: "force"}, 2, 3)
 		both(flowParams{Sources: 1, Records: 2, Batch: 1, Dests: 2, AckMenu: shapes, Stop: "force"}, 1, 2)
 		both(flowParams{Sources: 1, Records: 2, Batch: 1, Dests: 1, AckMenu: onlyOK, DLQMenu: shapes, Procs: []procParam{{ID: "pp", Kinds: []string{"e", "e"}}}, Stop: "force"}, 2, 3)
@@ -205,6 +205,10 @@ func preemptScenariosFor(prop string) []scn {
 		v1(flowParams{Sources: 1, Records: 1, Batch: 1, Dests: 1, AckMenu: onlyOK, Ctl: []string{"stop", "start", "stopwait"}}, 1, 2)
 		v2(flowParams{Sources: 1, Records: 1, Batch: 1, Dests: 1, AckMenu: onlyOK, Ctl: []string{"stop", "start", "stopwait"}}, 1, 2)
 		v1(flowParams{Sources: 1, Records: 1, Batch: 1, Dests: 1, AckMenu: []string{"ok", "err"}, Ctl: []string{"stopwait", "start", "stopwait"}, Retries: 1}, 1, 2)
+	case "C10":
+		// the node goroutines of a failing run racing with the run's cleanup goroutine
+		v1(flowParams{Sources: 1, Records: 2, Batch: 1, Dests: 1, AckMenu: []string{"ok", "err"}, ReadMenu: []string{"ok", "err", "fatal"}, Retries: 1, SiteWide: true}, 1, 2)
+		v2(flowParams{Sources: 1, Records: 2, Batch: 1, Dests: 1, AckMenu: []string{"ok", "err"}, ReadMenu: []string{"ok", "err", "fatal"}, Retries: 1, SiteWide: true}, 1, 2)
 	case "C13":
 		v1(flowParams{Sources: 1, Records: 2, Batch: 1, Dests: 1, AckMenu: onlyOK, Procs: []procParam{{ID: "pp"}}, Reconf: []string{"A", "B", "cancelA"}, ProcOpenMenu: []string{"ok"}}, 1, 2)
 		v1(flowParams{Sources: 1, Records: 2, Batch: 1, Dests: 1, AckMenu: onlyOK, Procs: []procParam{{ID: "pp"}}, Reconf: []string{"A"}, ProcOpenMenu: []string{"ok", "err"}, Stop: "stopwait"}, 1, 2)
